@@ -48,6 +48,8 @@ vmax_f = z3.Function('vmax', V, V, V)
 wavg_f = z3.Function('wavg', z3.RealSort(), V, V, V)   # t*a + (1-t)*b
 mulJ_f = z3.Function('matvec', V, V, V)        # np.dot(J, v)
 dyk_f = z3.Function('dykstra', V, V, V)        # dykstra(projections, x)
+transp_f = z3.Function('transp', V, V)         # J.T
+vscale_f = z3.Function('vscale', z3.RealSort(), V, V)   # c * v for a literal c
 copy_id = lambda v: v
 
 
@@ -222,6 +224,10 @@ class ModelDomain(Domain):
         # real vector-space identity used by base shifts: (b + s) + (p - s) == b + p
         st.assume(z3.ForAll([b, s_, p_], vadd_f(vadd_f(b, s_), vsub_f(p_, s_)) == vadd_f(b, p_)))
         st.assume(z3.ForAll([b], vadd_f(b, ZEROV) == b))
+        # linearity of the matrix-vector product and translation invariance of the elementwise clip (real vector arithmetic)
+        st.assume(z3.ForAll([b, s_, p_], mulJ_f(b, vsub_f(s_, p_)) == vsub_f(mulJ_f(b, s_), mulJ_f(b, p_))))
+        l_, u_ = z3.Consts('l_ u_', V)
+        st.assume(z3.ForAll([l_, u_, p_, s_], vmin_f(vmax_f(vsub_f(l_, s_), vsub_f(p_, s_)), vsub_f(u_, s_)) == vsub_f(vmin_f(vmax_f(l_, p_), u_), s_)))
         st.assume(z3.And(z3.Not(isnan_f(FINF)), z3.Not(isnan_f(FZERO)), z3.Not(isnan_f(FONE))))
         xf = z3.Const('xf_', F)
         st.assume(z3.ForAll([xf], rv_f(xf) <= rv_f(FINF)))      # +inf is the largest non-NaN value (rv of a NaN is irrelevant)
@@ -270,6 +276,11 @@ class ModelDomain(Domain):
         return None
 
     # ------------------------------------------------------------------ arithmetic
+    def float_const(self, v):
+        if v == v and v not in (float('inf'), float('-inf')):
+            return FLit(v)
+        return UNK
+
     def vop(self, f, a):
         if len(a) >= 2 and all(isz(x) and x.sort() == V for x in a[:2]):
             return f(a[0], a[1])
@@ -287,6 +298,8 @@ class ModelDomain(Domain):
                 if op == '+':
                     return fadd_f(a, b)
                 return UNK
+        if isinstance(a, FLit) and isz(b) and b.sort() == V and op == '*':
+            return vscale_f(z3.RealVal(repr(a.v)), b)
         if a is INF_TOKEN and isinstance(b, Arr) and op == '*':
             # np.inf * np.ones(shape)
             if b.arr.range() == V:
@@ -371,6 +384,8 @@ class ModelDomain(Domain):
     def load_attr(self, eng, base, attr, st, node):
         if node is not None and dotted(node) == 'np.inf':
             return INF_TOKEN
+        if isz(base) and base.sort() == V and attr == 'T':
+            return transp_f(base)
         if isz(base) and base.sort() == V and attr == 'shape':
             return UNK
         return Domain.load_attr(self, eng, base, attr, st, node)
@@ -395,6 +410,13 @@ class ModelDomain(Domain):
             return hU_f(args[0].v)
         return Domain.callback(self, eng, cb, e, args, kwargs, st)
 
+
+
+class FLit:
+    """a floating-point literal of the source (only used as a scale factor of an opaque vector)"""
+
+    def __init__(self, v):
+        self.v = v
 
 
 class InfToken:
